@@ -175,6 +175,8 @@ func hoExecute(side, n int, scenario string, choices []int, r *Rng) *hoRun {
 		ev := parked[int32(i)]
 		run.steps = append(run.steps, hoStep{task: i - 1, site: ev.site, cnt: ev.cnt})
 	}
+	failedTask := int32(-1)
+	failedDone := false
 	holder := int32(-1) // direct check: who owns the shared stream
 	lastHold := int32(0)
 	dec := 0
@@ -216,6 +218,7 @@ func hoExecute(side, n int, scenario string, choices []int, r *Rng) *hoRun {
 		o := opts[pick]
 		if o.fail {
 			injected = true
+			failedTask = o.id
 		}
 		from := parked[o.id]
 		delete(parked, o.id)
@@ -237,6 +240,9 @@ func hoExecute(side, n int, scenario string, choices []int, r *Rng) *hoRun {
 			holder = -1
 		}
 		if ev.site == kio.VerifHold {
+			if failedDone && run.bad == "" {
+				run.bad = fmt.Sprintf("task %d acquired the shared stream after the failed task %d had finished: the others are not stopped", ev.id, failedTask)
+			}
 			if holder != -1 && run.bad == "" {
 				run.bad = fmt.Sprintf("task %d acquired the shared stream while task %d owns it", ev.id, holder)
 			}
@@ -248,6 +254,9 @@ func hoExecute(side, n int, scenario string, choices []int, r *Rng) *hoRun {
 		}
 		if ev.site == kio.VerifDone {
 			live--
+			if ev.id == failedTask {
+				failedDone = true
+			}
 		} else {
 			parked[ev.id] = ev
 		}
